@@ -248,6 +248,7 @@ pub fn step_bytes(w: &Worker, env: &Env, pre: &Pre, bytes: &[u8], proto: vupd::P
                     "soa-add-serial-2^31-apart:undefined" => "obs:fork:soa-add-serial-2^31-apart-replaced",
                     "delete-soa-rr-off-apex:prose-deletes" => "obs:fork:soa-rr-off-apex-deleted",
                     "delete-only-ns-rr-off-apex:prose-deletes" => "obs:fork:only-ns-rr-off-apex-deleted",
+                    "zone-class-rr-with-empty-rdata:ignored" => "obs:fork:zone-class-rr-with-empty-rdata-ignored",
                     _ => "obs:fork:other",
                 });
             }
@@ -336,6 +337,17 @@ pub fn step_bytes(w: &Worker, env: &Env, pre: &Pre, bytes: &[u8], proto: vupd::P
         observations.push("obs:empty-rrset-key-left-behind");
     }
 
+    // a zone-class RR with RDLENGTH 0 in the update section: RFC 2136 neither forbids it (prescan) nor
+    // says what "adding" it means; the server stores it for ordinary types. Judged for such
+    // messages: no panic, rejected => unchanged, the zone invariants, and a serial that does not
+    // move backwards - what the zone then contains is observed only.
+    if upd.updates.iter().any(|r| r.class == ru::CLASS_IN && r.rdata.is_empty()) {
+        findings.retain(|f| f.clause == "panic" || f.clause == "no-reply" || f.clause.starts_with("inv:") || f.clause == "rejected-but-changed" || (f.clause == "serial" && (f.detail.contains("went-back") || f.detail.contains("undefined-relation"))));
+        observations.push("obs:update-with-a-data-less-zone-class-rr");
+        if post.rrs.iter().any(|r| r.rdata.is_empty()) {
+            observations.push("obs:data-less-rr-stored");
+        }
+    }
     StepOut { rcode, post, findings, ref_accepted: verdict.accepted(), changed, observations, panicked: false }
 }
 
@@ -415,7 +427,9 @@ fn expand(sh: &Shared, w: &Worker, node: &Node, alpha: &[MsgSpec], lo: usize, hi
             if want_succ {
                 // a signed zone whose published key the update removed is outside what is judged
                 let key_gone = out.observations.contains(&"obs:dnssec:update-deleted-the-dnskey-rrset");
-                if out.findings.is_empty() && !out.panicked && !key_gone && ru::invariants(&out.post.zone()).is_empty() {
+                // a state that holds a data-less RR is not expanded (what later messages make of it is garbage in, garbage out)
+                let data_less = out.post.rrs.iter().any(|r| r.rdata.is_empty());
+                if out.findings.is_empty() && !out.panicked && !key_gone && !data_less && ru::invariants(&out.post.zone()).is_empty() {
                     let mut h = node.history.clone();
                     h.push(msg.clone());
                     succ.push(Node { cfg: node.cfg, history: h, key: out.post.key(cfg.serial0) });
@@ -613,7 +627,10 @@ fn main() {
          the hickory-encoded message over UDP, and on a handler with a journal attached; ZONE-SECTION family (hand-encoded): ZTYPE in {A, NS, \
          ANY, AXFR} must be FORMERR and change nothing (RFC 2136 3.1.1, Catalog::update); ZOCOUNT 0/2, ZCLASS CH/ANY/NONE, ZNAME inside / \
          outside / above the zone are counted observations only (RFC 2136 3.1.2 NOTAUTH; the statement speaks of prerequisites, prescan and \
-         3.4.2 contents, not of section 3.1).",
+         3.4.2 contents, not of section 3.1). Sixth seed round: zone-class update RRs with RDLENGTH 0 of the types the add arm treats \
+         specially (SOA, CNAME, NS) and of A, at the apex and off it, alone, next to every effective atom and before / after a well-formed \
+         RR of the same type and owner; for such messages no panic, rejected => unchanged, the zone invariants and 'serial does not move \
+         backwards' are judged, what is stored is observed (the reference forks: ignored or stored), states holding a data-less RR are not expanded.",
     );
     ctx.assume("vref::update is the RFC 2136 3.2-3.4 / RFC 1982 reference; where prose and pseudocode disagree or precedence is not fixed it accepts every reading");
     ctx.assume("the only state update() reads is the record store (journal off, DNSSEC off): putting the saved store content back after a message equals rebuilding from the history (self-tested on a fixed slice of transitions)");
